@@ -39,7 +39,7 @@ def check_C04(tier):
     maxc = 5 if tier == "quick" else 6
     cfg = write_cfg("MC_Mcp_" + tier, constants={"MaxChunks": maxc, "MaxFaults": 1},
                     invariants=["ImplRefinesReq", "NoFaultOk", "SingleFaultFails", "OkIsInOrder", "Export"])
-    acts = ["Deliver", "Drop", "Dup", "ForeignBoard", "ForeignChip", "ToggleEom", "Resize"]
+    acts = ["Deliver", "Drop", "Dup", "ForeignBoard", "ForeignChip", "ToggleEom", "Resize", "ShiftIds"]
     r = tlc_model_check("MC_Mcp", cfg, "mc_mcp_" + tier, expect_actions=acts, workers=8)
     res.add_mc(r)
     beh = os.path.join(BUILD, "traces", "C04_beh.ndjson")
